@@ -202,7 +202,14 @@ def rule_tail(R):
     c17.rule_used(R)
 
 
+def rule_negotiated(R):
+    """the reconnected session is fully usable: what the previous connection negotiated (packet size limit, Maximum QoS,
+    receive window) does not carry over into a connection whose CONNACK is silent about it"""
+    roles.clause_negotiated_per_connection(R, "usable", ("maximum_packet_size", "max_qos", "send_quota", "max_send_quota"))
+
+
 def run(R):
+    R.rule("negotiated", rule_negotiated)
     R.rule("tail", rule_tail)
     R.rule("usable", rule_usable)
     R.rule("advertised", rule_advertised)
